@@ -21,6 +21,7 @@ ENGINES = {
     "vh-conc": {"path": "harness/conc", "kind": "DataLoader under vsched (Spawn, Timer and Loader owned by the schedule), offline history checker; real-thread mode; Miri supplement"},
     "vh-crash": {"path": "harness/crash", "kind": "process-level crash monitor: parent generates hostile inputs, children run them on 2 MiB stacks; panics, aborts and stalls are observed from outside"},
     "vh-parse": {"path": "harness/parse", "kind": "independent hand-written GraphQL parser R2 (harness/r2) + token-position printer; three-way agreement and position monitors"},
+    "vh-intro": {"path": "harness/intro", "kind": "introspection monitors: client-schema rebuild, three-way model diff (source / introspection / SDL via R2), visibility scanner"},
     "vh-gate": {"path": "harness/gate", "kind": "introspection-mode matrix, secret-sentinel scanner over logged text, persisted-query store model"},
 }
 
@@ -68,6 +69,14 @@ PROPS = {
               "Exploration: 50 validated argument fields and an input object, Strict and Fast modes, literals and variables, values at/below/above every bound; "
               "the resolver runs iff the exact predicate holds, otherwise the request errors.",
               "regex crate trusted on the oracle side; multiple_of(0) excluded (intent unclear, pinned by a repo unit test)."),
+    "C10": _p("vh-exec", "reference-measure oracle (own AST, fragments inlined) vs real limit enforcement with each limit at m-1, m, m+1; resolver event log shows whether anything ran",
+              "Exploration: generated single-operation documents (fragments, aliases, rule-feeding arguments from literals, variables, defaults, omission; "
+              "directives that never prune) over S1, a second derive-built schema S10 (complexity rules of four shapes behind an interface and a union) and "
+              "random dynamic schemas; the real schema is rebuilt with each of depth / complexity / recursion / directives at m-1, m, m+1, none, all-at-m, "
+              "Strict and Fast, execute and execute_stream; rejected with zero resolver events exactly when the reference measure exceeds the limit. "
+              "18 hand-computed calibration documents pin the conventions.",
+              "__typename cost, pruned selections, unselected operations and a limit of exactly usize::MAX are not asserted (stated in evidence). "
+              "Three known findings exclude rule fields below a spread of another type, rule arguments fed by an omitted variable, and sums above usize::MAX."),
     "C12": _p("vh-crash", "process-level monitor (panic hook, exit signal, progress watchdog) over hostile inputs on 8 client-controlled surfaces",
               "Exploration: 20k (quick) / >1M (thorough) hostile inputs (grammar-aware and byte-level mutations, deep nesting, forged markers, truncated bodies, "
               "WebSocket frames) executed in child processes on 2 MiB stacks; any panic, abnormal exit or repeated stall is a violation.",
@@ -92,6 +101,13 @@ PROPS = {
               "Exploration: a 22-variant recursive type family covering every serde data-model shape, nested to depth 4, random values; "
               "from_value(to_value(x)) must equal x.",
               "char, i128/u128, non-finite floats and Option<Option<T>> are outside the stated model and only exercised one-sidedly."),
+    "C18": _p("vh-intro", "client-schema rebuild from the real introspection JSON + structural diff against the source model and the SDL model (R2); raw-text scan for uniquely named hidden elements",
+              "Exploration, exhaustive over the 16 visibility contexts of a hand-written static family, sampled over random dynamic type systems (descriptions, "
+              "deprecations, defaults, specifiedByURL, oneOf, interface inheritance, unions, three roots, orphan types, hostile text): standard graphql-js "
+              "query, legacy query and __type(name:) for every listed and some unknown names; self-consistency (I1), equality with source and SDL (I2), "
+              "visibility (I3).",
+              "Which built-in types/directives are listed, list order, and whether a type reachable only through hidden elements is listed are not asserted; "
+              "SDL text escaping is C17's subject."),
     "C19": _p("vh-gate", "resolver event log + response scanner over the full 3x3 mode matrix",
               "Exploration, exhaustive over the 54-cell (schema mode x request mode x flavour x operation kind) matrix, random over documents: "
               "metadata sentinels must be absent when disabled, the resolver log must be empty under introspection-only, __typename must resolve.",
@@ -115,6 +131,13 @@ PROPS = {
               "Exploration, bounded-exhaustive over client/environment scripts (length <= 5 quick, <= 7 thorough, per protocol and init mode) plus random "
               "scripts up to length 40; every server message is judged by a protocol automaton written from the two PROTOCOL.md documents.",
               "One gate opens per step (two environment events cannot fall into one poll); legacy protocol defines no close codes, so any refusal is accepted there."),
+    "C27": _p("vh-exec", "offline monitor over the response sequence of execute_stream polled by vsched (event arrival and every resolver are gates); faults keyed by (path, node id) give every error a provenance",
+              "Exploration, bounded-exhaustive over schedules for small cases (DFS) plus LIFO/random beyond: subscriptions with 1-3 aliased root fields on S1 "
+              "and on a dynamic schema built from the same model, 0-4 single-node faults; each response must equal the reference executor's result for its own "
+              "event alone (data, errors by path and by cause), one response per produced event in order, the stream ends; streamed queries/mutations yield "
+              "exactly one response, the one execute() gives.",
+              "Error locations, the shape of a root-nulled event and continuation after a root failure are not asserted. 'Exactly one response' for a streamed "
+              "query is read as 'the response of that query'."),
     "C28": _p("vh-conc", "offline history checker (rules D1-D6) over DataLoader runs whose Spawn, Timer and Loader are owned by vsched",
               "Exploration, exhaustive DFS over all interleavings for <=3 requests over 3 keys x batch sizes 1-3 x cache modes x fault plans x cancellations; "
               "random walks up to 12 requests; thorough adds a real-thread mode and a Miri run over the scc paths.",
